@@ -79,10 +79,11 @@ type ContractSet struct {
 	Order     []*Contract
 	Macros    map[string]*SpecMacro
 	Ghosts    []GhostVar
+	GlobalFacts map[string][]Expr
 	Files     []string
 }
 
-var clauseKW = regexp.MustCompile(`^(func|interface|extern|lemma|spec|ghost|requires|ensures|assigns|modifies|loop|tags|overflow|abstract|fnparam|pure|trusted|returns|waive)\b`)
+var clauseKW = regexp.MustCompile(`^(func|interface|extern|lemma|spec|ghost|globalfact|requires|ensures|assigns|modifies|loop|tags|overflow|abstract|fnparam|pure|trusted|returns|waive)\b`)
 var headRe = regexp.MustCompile(`^(func|interface|extern)\s+(\([^)]*\)\.)?([A-Za-z0-9_.$/\-]+)\s*\(([^)]*)\)\s*(.*)$`)
 var lemmaRe = regexp.MustCompile(`^lemma(\[[^\]]*\])?\s+([A-Za-z0-9_.$]+)\s*\(([^)]*)\)\s*$`)
 var specRe = regexp.MustCompile(`^spec\s+([A-Za-z0-9_$]+)\s*\(([^)]*)\)\s*=\s*(.*)$`)
@@ -245,6 +246,21 @@ func (cs *ContractSet) LoadFile(path, pkg string) error {
 				return errf("spec %s: %v", m[1], err)
 			}
 			cs.Macros[m[1]] = &SpecMacro{Name: m[1], Params: splitList(m[2]), Body: e, Text: m[3]}
+			cur = nil
+		case strings.HasPrefix(t, "globalfact "):
+			// globalfact <Name> <expr over Name>: the package-level variable never changes after init and satisfies expr
+			fs := strings.SplitN(strings.TrimSpace(t[11:]), " ", 2)
+			if len(fs) != 2 {
+				return errf("bad globalfact: %s", t)
+			}
+			e, err := ParseExpr(fs[1])
+			if err != nil {
+				return errf("globalfact %s: %v", fs[0], err)
+			}
+			if cs.GlobalFacts == nil {
+				cs.GlobalFacts = map[string][]Expr{}
+			}
+			cs.GlobalFacts[pkg+"."+fs[0]] = append(cs.GlobalFacts[pkg+"."+fs[0]], e)
 			cur = nil
 		case strings.HasPrefix(t, "ghost "):
 			kv := strings.SplitN(strings.TrimSpace(t[6:]), ":", 2)
